@@ -7,6 +7,7 @@ Items are (kind, dialect, ident, ruleset):
   jinja    — generated jinja template + context         ident = generator seed (even: inline, odd: block style)
   cmt      — the fixture with 1-3 inline comments (`-- c<k>` + newline) put in place of whitespace tokens (every 2nd fixture)
   quo      — the fixture with 1-3 unquoted identifiers replaced by a mixed-case quoted identifier (every 2nd fixture)
+  jpad     — the jinja templates again with the padding inside some tags removed and a table name glued from three tags
   edge     — generated statements whose lines are padded to within 3 characters of max_line_length (near-limit lines)
 The universe is a pure function of the repo's fixture directory and of `corpus_gen.py` (frozen), so a known finding can
 be keyed by the item's name; VERIF_SEED only chooses which slice a quick run visits.
@@ -31,13 +32,34 @@ REPO = str(G.REPO)
 
 def name_of(item):
     kind, d, ident, rs = item
-    return {"fixture": "%s", "mutant": "%s#mut", "gen": "gen#%s", "jinja": "jinja#%s", "cmt": "%s#cmt", "quo": "%s#quo", "edge": "edge#%s"}[kind] % (ident,)
+    return {"fixture": "%s", "mutant": "%s#mut", "gen": "gen#%s", "jinja": "jinja#%s", "cmt": "%s#cmt", "quo": "%s#quo", "edge": "edge#%s", "jpad": "jpad#%s"}[kind] % (ident,)
 
 
 def _tokens(d, sql):
     from sqlfluff.core import FluffConfig, Lexer
     toks, _ = Lexer(config=FluffConfig(overrides={"dialect": d})).lex(sql)
     return [t for t in toks if not t.is_meta]
+
+
+_FORMS = {}
+
+
+def line_comment_forms(d):
+    """The line-comment syntaxes the dialect's own lexer accepts (a comment token that ends at the line break)."""
+    if d not in _FORMS:
+        from sqlfluff.core import FluffConfig, Lexer
+        lx = Lexer(config=FluffConfig(overrides={"dialect": d}))
+        ok = []
+        for cand in ("-- c%d", "# c%d", "REM c%d", "PROMPT c%d", "\\echo c%d", "// c%d"):
+            try:
+                toks, errs = lx.lex((cand % 7) + "\nSELECT 1\n")
+                toks = [t for t in toks if not t.is_meta]
+                if not errs and toks and toks[0].is_type("comment") and toks[0].raw == cand % 7 and toks[1].is_type("newline"):
+                    ok.append(cand)
+            except Exception:
+                pass
+        _FORMS[d] = ok or ["-- c%d"]
+    return _FORMS[d]
 
 
 def inject_comments(rng, d, sql):
@@ -56,9 +78,10 @@ def inject_comments(rng, d, sql):
         pick_ws = set(ws[:k])
     out = []
     for i, t in enumerate(toks):
+        forms = line_comment_forms(d)
         if i in pick_bd:
-            out.append(" -- b%d\n" % (i % 7))
-        out.append((" -- c%d\n" % (i % 7)) if i in pick_ws else t.raw)
+            out.append(" " + rng.choice(forms) % (i % 7) + "\n")
+        out.append((" " + rng.choice(forms) % (i % 7) + "\n") if i in pick_ws else t.raw)
     return "".join(out)
 
 
@@ -125,6 +148,22 @@ def load(item):
     if kind == "gen":
         return name_of(item), G.sql_file(random.Random(int(ident))), None
     tpl, ctx = (G.jinja_block_template if int(ident) % 2 else G.jinja_template)(random.Random(int(ident)))
+    if kind == "jpad":
+        import re
+        r = random.Random(int(ident) + 7919)
+        def unpad(m):
+            k = r.random()
+            inner = m.group(2)
+            if k < 0.35:
+                return m.group(1) + inner.strip() + m.group(3)
+            if k < 0.5:
+                return m.group(1) + inner.lstrip() + m.group(3)
+            if k < 0.6:
+                return m.group(1) + "  " + inner.strip() + " " + m.group(3)
+            return m.group(0)
+        tpl = re.sub(r"(\{\{|\{%-?)(.*?)(-?%\}|\}\})", unpad, tpl)
+        glued = r.choice(["{{t}}_{{name}}_{{n}}", "{{ t }}_{{name}}_{{n}}", "{{t}}_{{ name }}", "{{t}}{{name}}{{n}}"])
+        tpl = re.sub(r"(?i)(from\s+)(\{\{ ?t ?\}\}(_x)?|tbl)", lambda m: m.group(1) + glued, tpl, count=1)
     return name_of(item), tpl, ctx
 
 
@@ -149,6 +188,9 @@ def full_universe(rulesets=None):
     for i in range(N_JINJA):
         for rs in ("all", "layout"):
             items.append(("jinja", "ansi", i, rs))
+    for i in range(N_JINJA):
+        for rs in ("all", "layout"):
+            items.append(("jpad", "ansi", i, rs))
     for k, (d, f) in enumerate(G.fixture_files()):
         if k % 2:
             continue
